@@ -119,13 +119,25 @@ func VH03a_history() {
 	tag := byte(0)
 	rtag := byte(100)
 	for e := 0; e < E; e++ {
-		ev := verif.Choice("ev", 7)
+		ev := verif.Choice("ev", 8)
 		if e == 0 {
 			verif.Assume(ev == 0) // histories start with a request; the other starts are in VH03b
 		}
 		switch ev {
+		case 7: // a further context is opened in the middle of things: it has no request outstanding
+			if len(cs) >= 3 {
+				verif.Assume(false)
+			}
+			cn, oerr := sock.OpenContext()
+			verif.Assert(oerr == nil, lab+"/open-context-later")
+			if oerr != nil {
+				return
+			}
+			cn.SetOption(mangos.OptionRetryTime, time.Duration(retry)*time.Millisecond)
+			cs = append(cs, &rctx{name: "late-ctx", c: cn})
+			verif.Reach("late-context")
 		case 0: // Send on a context
-			r := cs[verif.Choice("ctx", 2)]
+			r := cs[verif.Choice("ctx", len(cs))]
 			if r.closed || r.sg != nil {
 				verif.Assume(false)
 			}
@@ -141,7 +153,7 @@ func VH03a_history() {
 			r.sends++
 			r.hasReq, r.answered, r.reqTag, r.cur = true, false, t, 0
 		case 1: // start Recv
-			r := cs[verif.Choice("ctx", 2)]
+			r := cs[verif.Choice("ctx", len(cs))]
 			if r.rg != nil {
 				verif.Assume(false)
 			}
